@@ -423,6 +423,9 @@ class Report:
         print("[%s] tier=%s seed=%d events=%d distinct_nontrivial=%d classes=%d wall=%.1fs" % (
             self.prop, self.tier, self.seed, self.events, len(self.distinct), len(self.classes), wall), flush=True)
         if new_viol:
+            import collections
+            cnt = collections.Counter((v.get("config"), " ".join((v.get("lines") or ["?"])[min(v.get("index", 0), len(v.get("lines") or ["?"]) - 1)].split()[:3])) for v in new_viol)
+            print("  violation summary (config, op): " + ", ".join("%s/%s x%d" % (c, o, n) for (c, o), n in cnt.most_common(20)))
             for v, rp in zip(new_viol[:10], replay_paths):
                 print("  violation config=%s why=%s got=%s" % (v.get("config"), v.get("why"), str(v.get("got"))[:200]))
                 for ln in v.get("lines", [])[:4]:
